@@ -71,13 +71,15 @@ func CFFamilies(tier string) []*FamilySpec {
 		lists = append(lists, gen.CFFull.Programs(1, 2)...)
 		lists = append(lists, gen.CFLite.Programs(3, 3)...)
 	}
+	var corpus []gen.List
 	for _, k := range CFCorpus {
 		l, err := gen.Parse(k)
 		if err != nil {
 			core.HarnessError("corpus entry %q: %v", k, err)
 		}
-		lists = append(lists, l)
+		corpus = append(corpus, l)
 	}
+	lists = append(lists, closeUnderReductions(gen.CFAll, corpus)...)
 	return []*FamilySpec{genFamily("CF", gen.CFAll, lists), HandFamily("pool", "pool.go.txt")}
 }
 
@@ -161,5 +163,42 @@ func C11(tier string) *core.Report {
 	}
 	r.Set("rule", "every type-correct program of the families is compiled by the real rewriter.Compile (batch, non-test binary, 10 min watchdog) and the generated package is built with go build without the co tag; a panic is isolated to its program through the verif hook; exploration counters are those of the shared run")
 	r.Assume("programs of the families are within the documented supported subset (README control-flow table)")
+	return r
+}
+
+// C07 — the optimisation pass never changes behaviour: unoptimised stage (kept by the verif hook)
+// vs the final output of the real Compile, on every explored path and injected panic.
+func C07(tier string) *core.Report {
+	r := core.NewReport("C07", tier)
+	fams := append(CFFamilies(tier), OptFamilies(tier)...)
+	for _, fr := range runFamilies(r, fams, tier) {
+		for _, f := range fr.Divergences("opt") {
+			r.Fail(f)
+		}
+		// the final package must build whenever the unoptimised one does
+		var fails []core.Failure
+		tmpBad := 0
+		for _, o := range fr.Outcomes {
+			if o.TmpBad != "" {
+				tmpBad++
+			}
+			if o.Status == "unbuildable" && o.TmpBad == "" {
+				fails = append(fails, core.Failure{Key: fr.Spec.Name + ":" + o.Key, Kind: "optimised-unbuildable", Detail: o.Sig,
+					What:   "the optimised output does not build although the unoptimised stage does",
+					Replay: map[string]any{"source": fr.source(o, "src"), "unoptimised": fr.source(o, "tmp"), "generated": fr.source(o, "out")}})
+			}
+		}
+		for _, f := range fr.roots(fails) {
+			r.Fail(f)
+		}
+		r.Add("unoptimised_stage_unbuildable", tmpBad)
+		if len(fr.HookDiff) > 0 {
+			r.Fail(core.Failure{Key: fr.Spec.Name + ":hook-binding", Kind: "hook-mismatch", Detail: "final output of the hook entry point differs from rewriter.Compile",
+				What: "the verif hook does not reproduce the real pipeline, so its unoptimised stage cannot be trusted", Replay: fr.HookDiff})
+		}
+	}
+	r.Set("rule", ruleProg+"; C07 is differential without any hand-written expectation: the marked log of the unoptimised intermediate package (stage 1 of the hook, whose final output is required to be byte-identical to the real Compile's) equals the marked log of the final package on all answer vectors and injected panics")
+	commonAssumptions(r)
+	r.Assume("the unoptimised stage still carries the go-co API import, which the compiler reports as unused; those import lines are removed before building it (nothing else is touched)")
 	return r
 }
